@@ -1,9 +1,12 @@
 /-
 C34 — property theorems for Condition and Event; all quantified over ALL op sequences from the initial state
 (wait with/without deadline, notify n / notify_all / set / clear, fire-next-timer, cancel, and the
-same-iteration races).
+same-iteration races).  The last section proves trace refinement Model → Spec for both classes (simulation
+lemmas in RefineCond.lean / RefineEvent.lean).
 -/
 import TornadoModel.C34.Lemmas
+import TornadoModel.C34.RefineCond
+import TornadoModel.C34.RefineEvent
 namespace TornadoModel.C34
 open TornadoModel.C33 (FState Ev Timer isPend minTimer isPend_lt)
 
@@ -268,7 +271,7 @@ theorem TS.trans {a b c : St} (h1 : TS a b) (h2 : TS b c) : TS a c := by
   · exact Or.inr ⟨t, h1.2 t ht, e⟩
 
 theorem ts_purge (s : St) : TS s (purge s) :=
-  ⟨fun _ h => Or.inl h, fun t ht => (List.mem_filter.mp ht).1⟩
+  ⟨fun _ h => Or.inl h, fun _ ht => (List.mem_filter.mp ht).1⟩
 
 theorem ts_fireDue (s : St) : TS s (fireDue s).1 := by
   unfold fireDue
@@ -379,16 +382,49 @@ theorem event_wait_iff (ops : List Op) :
 
 end Event
 
-/-! ### refinement to the sequential specifications (stated, not proved: tie-only, see docs/C34.md) -/
+/-! ### refinement to the sequential specifications (`RefineCond.lean`: forward simulation through `absF`) -/
 
-def Cond.refines_spec_goal : Prop :=
-  ∀ (t0 : Nat) (ops : List Cond.Op),
-    (Cond.run (Cond.init t0) ops).2.map (fun o => (o.res, o.evs)) =
-      (Spec.Cond.run Spec.Cond.init ops).2.map (fun o => (o.res, o.evs))
+/-- for every preset of the collector and every op sequence the Condition model produces the same results and the
+same resolutions, in the same order, as the sequential specification (FIFO of live waiters) -/
+theorem Cond.refines_spec :
+    ∀ (t0 : Nat) (ops : List Cond.Op),
+      (Cond.run (Cond.init t0) ops).2.map (fun o => (o.res, o.evs)) =
+        (Spec.Cond.run Spec.Cond.init ops).2.map (fun o => (o.res, o.evs)) := by
+  intro t0 ops
+  rw [← Cond.absF_init t0]
+  exact (Cond.run_sim (Cond.inv_init t0) (Cond.TInv_init t0) ops).symm
 
-def Event.refines_spec_goal : Prop :=
-  ∀ (ops : List Event.Op),
-    (Event.run Event.init ops).2.map (fun o => (o.res, o.evs)) =
-      (Spec.Event.run Spec.Event.init ops).2.map (fun o => (o.res, o.evs))
+/-- … and after every history the `Spec` state is the abstraction of the model state -/
+theorem Cond.refines_spec_state (t0 : Nat) (ops : List Cond.Op) :
+    (Spec.Cond.run Spec.Cond.init ops).1 = Cond.absF (Cond.run (Cond.init t0) ops).1 := by
+  rw [← Cond.absF_init t0]
+  exact Cond.run_sim_state (Cond.inv_init t0) (Cond.TInv_init t0) ops
+
+example : (Cond.run (Cond.init 0) [.wait (some 5), .wait none, .wait (some 5), .cancel 1, .raceNotify 1,
+      .wait (some 7), .notifyAll]).2.map (fun o => (o.res, o.evs))
+    = [(.unit, []), (.unit, []), (.unit, []), (.bool true, [(1, .cancelled)]),
+       (.unit, [(0, .result 1), (2, .result 0)]), (.unit, []), (.unit, [(3, .result 1)])] := by decide
+
+/-- for every op sequence the Event model produces the same results and the same resolutions (per op, sorted by id
+on both sides) as the sequential specification (flag + set of pending waits; a wait whose deadline is reached while
+pending fails, `raceSet` expires first) -/
+theorem Event.refines_spec :
+    ∀ (ops : List Event.Op),
+      (Event.run Event.init ops).2.map (fun o => (o.res, o.evs)) =
+        (Spec.Event.run Spec.Event.init ops).2.map (fun o => (o.res, o.evs)) := by
+  intro ops
+  rw [← Event.absF_init]
+  exact (Event.run_sim Event.inv_init Event.ws_init Event.TInv_init Event.notDue_init ops).symm
+
+/-- … and after every history the `Spec` state is the abstraction of the model state -/
+theorem Event.refines_spec_state (ops : List Event.Op) :
+    (Spec.Event.run Spec.Event.init ops).1 = Event.absF (Event.run Event.init ops).1 := by
+  rw [← Event.absF_init]
+  exact Event.run_sim_state Event.inv_init Event.ws_init Event.TInv_init Event.notDue_init ops
+
+example : (Event.run Event.init [.wait (some 5), .wait none, .wait (some 5), .raceSet, .wait none, .clear,
+      .wait (some 9), .fire]).2.map (fun o => (o.res, o.evs))
+    = [(.unit, []), (.unit, []), (.unit, []), (.unit, [(0, .timeout), (1, .result 0), (2, .timeout)]),
+       (.unit, [(3, .result 0)]), (.unit, []), (.unit, []), (.fired (some 9), [(4, .timeout)])] := by decide
 
 end TornadoModel.C34
